@@ -241,8 +241,13 @@ pub fn run_content(args: &Args, mut out: Out) {
             continue;
         }
         // the same event through push_to must give the same bytes
-        let mut v = vec![];
-        ev.push_to(&mut v);
+        // (a panic of the encoder is data, not a failure of the harness: the block then reads "<panic>" and is rejected)
+        let v = catch(|| {
+            let mut v = vec![];
+            ev.push_to(&mut v);
+            v
+        })
+        .unwrap_or_else(|()| b"<panic in push_to>".to_vec());
         let same = v == block.as_bytes();
         out.ev(
             sid,
